@@ -159,3 +159,94 @@ M("C02.default_get_last_wins", "C02", "core/src/props.rs",
 
                 ControlFlow::Continue(())
             } else {""", "C02.R3")
+
+# ---- C05 -------------------------------------------------------------------------------------------
+M("C05.with_completion_enables(reverse of fix 3266f83)", "C05", "src/span.rs",
+  """        let completion = self.completion.take().map(|_| completion);
+
+        SpanGuard {
+            state: self.state.take(),
+            data: self.data.take(),
+            completion,
+        }""",
+  """        self.completion.take();
+
+        SpanGuard {
+            state: self.state.take(),
+            data: self.data.take(),
+            completion: Some(completion),
+        }""", "C05.R4")
+M("C05.complete_with_leaves_completion", "C05", "src/span.rs",
+  """        if let (SpanGuardState::Started(timer), Some(data), Some(_)) =
+            (self.state.take(), self.data.take(), self.completion.take())""",
+  """        if let (SpanGuardState::Started(timer), Some(data), Some(_)) =
+            (self.state.take(), self.data.take(), self.completion.as_ref())""", "C05.R1:complete_with")
+M("C05.start_restarts", "C05", "src/span.rs",
+  """        let SpanGuardState::Initial(clock) = state else {
+            self.state = state;
+            return;
+        };
+
+        self.state = SpanGuardState::Started(Timer::start(clock));""",
+  """        let clock = match state {
+            SpanGuardState::Initial(clock) => clock,
+            SpanGuardState::Started(timer) => timer.into_clock(),
+            SpanGuardState::Completed => return,
+        };
+
+        self.state = SpanGuardState::Started(Timer::start(clock));""", "C05.R3") if False else None
+M("C05.complete_default_ignores_state", "C05", "src/span.rs",
+  """        if let (SpanGuardState::Started(timer), Some(data), Some(completion)) =
+            (self.state.take(), self.data.take(), self.completion.take())
+        {
+            completion.complete(Span::new(data.mdl, data.name, timer, data.props));""",
+  """        if let (SpanGuardState::Started(timer), Some(data), Some(completion)) =
+            (self.state.take(), self.data.take(), self.completion.as_ref())
+        {
+            completion.complete(Span::new(data.mdl, data.name, timer, data.props));""", "C05.R1:complete_default")
+M("C05.map_props_copies_completion_some", "C05", "src/span.rs",
+  """            state: self.state.take(),
+            data,
+            completion: self.completion.take(),""",
+  """            state: mem::replace(&mut self.state, SpanGuardState::Completed),
+            data,
+            completion: self.completion.take(),""", "C05.NEVER") if False else None
+M("C05.new_always_enabled", "C05", "src/span.rs",
+  "            completion: if is_enabled { Some(completion) } else { None },",
+  "            completion: { let _ = is_enabled; Some(completion) },", "C05.R4")
+M("C05.drop_does_not_complete", "C05", "src/span.rs",
+  """    fn drop(&mut self) {
+        self.complete_default();
+    }""",
+  """    fn drop(&mut self) {
+        if self.data.is_none() {
+            self.complete_default();
+        }
+    }""", "C05.R2:Drop")
+M("C05.timer_extent_start_now", "C05", "src/timer.rs",
+  "            (Some(start), Some(end)) => Some(Extent::range(start..end)),",
+  "            (Some(_), Some(end)) => Some(Extent::range(end..end)),", "C05.R6")
+M("C05.panic_arm_uses_lvl", "C05", "src/span.rs",
+  """                    self.panic_lvl
+                        .as_ref()
+                        .map(|lvl| Value::from_any(lvl))
+                        .or_else(|| Some(Value::from_any(&Level::Error)))""",
+  """                    self.lvl
+                        .as_ref()
+                        .map(|lvl| Value::from_any(lvl))
+                        .or_else(|| Some(Value::from_any(&Level::Error)))""", "C05.R7")
+M("C05.hook_swaps_levels", "C05", "src/macro_hooks.rs",
+  """        if let Some(lvl) = self.lvl.and_then(|lvl| lvl.capture()) {
+            completion = completion.with_lvl(lvl);
+        }
+
+        if let Some(lvl) = self.panic_lvl.and_then(|lvl| lvl.capture()) {
+            completion = completion.with_panic_lvl(lvl);
+        }""",
+  """        if let Some(lvl) = self.lvl.and_then(|lvl| lvl.capture()) {
+            completion = completion.with_panic_lvl(lvl);
+        }
+
+        if let Some(lvl) = self.panic_lvl.and_then(|lvl| lvl.capture()) {
+            completion = completion.with_lvl(lvl);
+        }""", "C05.hooks")
